@@ -62,3 +62,39 @@ Definition utf8_encode (c : N) : bytes :=
   else if c <? 2048 then [192 + c / 64; 128 + c mod 64]
   else if c <? 65536 then [224 + c / 4096; 128 + (c / 64) mod 64; 128 + c mod 64]
   else [240 + c / 262144; 128 + (c / 4096) mod 64; 128 + (c / 64) mod 64; 128 + c mod 64].
+
+(* Utf8Error::error_len() == None: the input ends inside a sequence that is
+   well-formed so far ("unexpected end of input"). [r] is what is left after
+   the longest well-formed prefix. *)
+Definition incomplete_tail (r : bytes) : bool :=
+  match r with
+  | [b0] => in_range 194 244 b0
+  | [b0; b1] =>
+      (b0 =? 224) && in_range 160 191 b1
+      || (in_range 225 236 b0 || in_range 238 239 b0) && is_cont b1
+      || (b0 =? 237) && in_range 128 159 b1
+      || (b0 =? 240) && in_range 144 191 b1
+      || in_range 241 243 b0 && is_cont b1
+      || (b0 =? 244) && in_range 128 143 b1
+  | [b0; b1; b2] =>
+      ((b0 =? 240) && in_range 144 191 b1
+       || in_range 241 243 b0 && is_cont b1
+       || (b0 =? 244) && in_range 128 143 b1) && is_cont b2
+  | _ => false
+  end.
+
+Fixpoint utf8_truncated_fuel (fuel : nat) (l : bytes) : bool :=
+  match l with
+  | [] => false
+  | _ =>
+      match fuel with
+      | O => false
+      | S f =>
+          match utf8_head_len l with
+          | O => incomplete_tail l
+          | n => utf8_truncated_fuel f (skipn n l)
+          end
+      end
+  end.
+(* matches!(str::from_utf8(l), Err(e) if e.error_len().is_none()) *)
+Definition utf8_truncated (l : bytes) : bool := utf8_truncated_fuel (length l) l.
